@@ -126,6 +126,17 @@ int main(int argc, char** argv)
 			if(xb == xa)
 				xb = xa + 0.1 * s;
 		}
+		if(i % 17 == 5)
+		{	// the two starting abscissae carry exactly the same objective value (a tie): f(x) = ((x-c)^2 - d^2) (x - c - 0.3 d) on (c-d, c+d),
+			// c and d dyadic so that f vanishes exactly at both; a maximiser is the minimiser of -f for tied starts too
+			double cd = std::ldexp((double)g.range(-40, 40), -3), dd = std::ldexp((double)g.range(1, 24), -3);
+			cls = "multimodal";
+			f	= [=](double x) { double u = x - cd; return (u * u - dd * dd) * (u - 0.3 * dd) / (dd * dd * dd); };
+			xa	= cd - dd;
+			xb	= cd + dd;
+			if(g.coin())
+				std::swap(xa, xb);
+		}
 		double tol = g.logu(1e-12, 1e-3);
 		intent("Find_Minimum fam " + std::to_string(fam) + " c=" + hexbits(c) + " s=" + hexbits(s) + " f0=" + hexbits(f0) + " xa=" + hexbits(xa) + " xb=" + hexbits(xb) + " tol=" + hexbits(tol));
 		// every evaluation is observed: the point returned must be the best one evaluated (Brent keeps the best point in x)
